@@ -7,7 +7,7 @@ HOOKS = {
     "add_only": True,
 }
 ENGINES = [
-    {"name": "grid", "path": "/verif/mc/props", "serves_properties": ["C02", "C04", "C05", "C06", "C07", "C16", "C17"],
+    {"name": "grid", "path": "/verif/mc/props", "serves_properties": ["C01", "C02", "C04", "C05", "C06", "C07", "C16", "C17"],
      "kind_free_text": "complete Cartesian products of finite input alphabets executed on the real code and compared with an explicit oracle or metamorphic relation"},
     {"name": "fault", "path": "/verif/mc/props/C08.py", "serves_properties": ["C08"],
      "kind_free_text": "fault-point enumerator: public-API fault menu x position and sys.settrace call-level injection, snapshot oracle"},
@@ -144,5 +144,17 @@ CHECKS["C16"] = dict(
          "general-position offsets and one-sided spikes in 4 group orders (self-intersecting); scales 1e-3, 1, 1e2.",
     note="Truth comes from the construction (self-tested each run: closed consistently oriented manifold with the known positive "
          "volume). Touching/coplanar contacts are excluded as ambiguous. Scales below 1e-3 belong to C12.")
+CHECKS["C01"] = dict(
+    engine="grid", level="exploration", design_ref="DESIGN.md §4 C01, §3",
+    technique="bounded-exhaustive enumeration of observer cells on both sides of every formula switch x class x regime x excitation x pose x field, each compared with an adaptive first-principles quadrature carrying its own error bound",
+    text="For 10 classes x 1-7 geometry regimes the observer cells (inside/outside at 1e-3 from faces, both sides of r/r0=0.05, axis, "
+         "edge/segment extension lines on both sides of the library's 1e-12 switch, next to vertices, 1.7x, 30x, 1000x size; "
+         "CylinderSegment regimes chosen to reach all case ids incl. on-axis observers) are crossed with 4 excitations x 2-3 poses x B/H. "
+         "Reference: surface-charge tensor integral (near) or dipole-density volume integral (far), Biot-Savart line integral, dipole "
+         "formula; ~3.9k (quick) reference integrals, ~59k comparisons.",
+    note="Decides each cell, not each real number: VERIF_SEED picks one of four fixed representative sets for the open cells. "
+         "Tolerance table per class (1e-12 ... 5e-5, x distance^3 growth, 1e-5 next to extension lines, never above 1e-3) calibrated on "
+         "the unchanged tree; cases whose reference error bound is not 10x below the tolerance are counted as oracle_inconclusive. "
+         "References are cached in /verif/cache keyed by exact input (they depend only on /verif code).")
 _todo = "check not built yet in this session (planned, see DESIGN.md §4); nothing is claimed for it"
 NOT_APPLICABLE = [{"property_id": f"C{i:02d}", "reason": _todo} for i in range(1, 21) if f"C{i:02d}" not in CHECKS]
